@@ -374,8 +374,9 @@ def run_check(pid, tier, seed, level, level_text=None):
         "known_findings": [k["signature"] for k in kf],
         "log": log[-6:],
     }
-    os.makedirs(os.path.join(VERIF, "evidence"), exist_ok=True)
-    with open(os.path.join(VERIF, "evidence", "%s.json" % pid), "w") as f:
+    evdir = os.environ.get("VERIF_EVIDENCE_DIR") or os.path.join(VERIF, "evidence")  # seeded-change evaluations write elsewhere
+    os.makedirs(evdir, exist_ok=True)
+    with open(os.path.join(evdir, "%s.json" % pid), "w") as f:
         json.dump(ev, f, indent=1, ensure_ascii=True, default=repr)
     if b.get("private_driver"):
         try:
